@@ -885,9 +885,21 @@ impl<const N: usize> SubscriptionsInner<N> {
     ) where
         B: Buffers<IMBuffer> + 'a,
     {
-        // Always clear the reporting slot; it was populated in `report()`.
-        self.reporting = None;
-        let cancelled = self.reporting_cancelled.take();
+        // The reporting slot (and a cancellation recorded against it) belongs to the
+        // report started by `report()`. A priming report - started by `add()` - may
+        // well complete while that one is still in flight, and must then neither
+        // vacate the slot nor consume a cancellation that is not meant for it.
+        let in_flight = self
+            .reporting
+            .as_ref()
+            .is_some_and(|reporting| reporting.ids.id == sub.ids.id);
+
+        let cancelled = if in_flight {
+            self.reporting = None;
+            self.reporting_cancelled.take()
+        } else {
+            None
+        };
 
         if let Some(reason) = cancelled {
             info!(
